@@ -192,6 +192,9 @@ func eq[A any](a, b A) bool {
 	if reflect.TypeOf(&a).Elem().Kind() == reflect.Func {
 		return string(raw(&a)) == string(raw(&b))
 	}
+	if v := reflect.ValueOf(&a).Elem(); v.Kind() == reflect.Slice && v.Cap() != reflect.ValueOf(&b).Elem().Cap() {
+		return false // the value of a slice field is its header: a read that clips the spare capacity is not the field's value
+	}
 	return reflect.DeepEqual(a, b)
 }
 
@@ -267,7 +270,9 @@ func Reflector[S, A any](c *Ctx, label string, r optics.Reflector[A], sel func(*
 	twin := twinOf(subj)
 	ps := &subj.v
 	o := &other{}
-	args := map[string]any{"S (by value)": subj.v, "*Other": o, "**S": &ps, "nil": nil, "(*S)(nil) boxed as *Other(nil)": (*other)(nil), "uintptr": uintptr(unsafe.Pointer(ps)), "unsafe.Pointer": unsafe.Pointer(ps)}
+	one := []S{subj.v}
+	args := map[string]any{"S (by value)": subj.v, "*Other": o, "**S": &ps, "nil": nil, "(*S)(nil) boxed as *Other(nil)": (*other)(nil), "uintptr": uintptr(unsafe.Pointer(ps)), "unsafe.Pointer": unsafe.Pointer(ps),
+		"[]S": one, "*[]S": &one, "[1]S": [1]S{subj.v}, "*[1]S": &[1]S{subj.v}, "map[string]S": map[string]S{"k": subj.v}, "chan S": make(chan S, 1), "func() *S": func() *S { return ps }, "[]*S": []*S{ps}}
 	for name, arg := range args {
 		for _, which := range []string{"Gett", "Putt"} {
 			c.R.Evaluations++
@@ -389,7 +394,14 @@ func listing[S any](c *Ctx, want []E[S]) hseq.Seq[S] {
 			return seq
 		}
 	}
-	for _, k := range []string{"", "nope", "Zz9", strings.ToLower(want[0].Key) + "_", want[0].Key + ",opt"} {
+	absent := []string{"", "nope", "Zz9", strings.ToLower(want[0].Key) + "_", want[0].Key + ",opt"}
+	for _, w := range want {
+		if w.Key != w.Name {
+			// the tag, when present, IS the name: the Go identifier of a tagged field names nothing (unless another entry has it as its key)
+			absent = append(absent, w.Name)
+		}
+	}
+	for _, k := range absent {
 		if _, dup := first[k]; dup {
 			continue
 		}
